@@ -6,8 +6,8 @@ logger, checkpoint file read at every batch boundary, `pairwise_ranks.tsv`) vs t
 (scoring is C05's business).  A few cases additionally run the real CLI in a fresh process.
 Oracle: the property's clauses as Lean spec ops (`streamspec`, `prefixaggs`, `finalokrows`) on the implementation's outputs.
 Additional family E2E (harness/corr_E2E.py, DESIGN §11.2): whole files through the real task vs the composed Lean model
-`Pipeline.rankFile` (parser, loop, pairs, orientation, MI scoring, median, sort); its theorems (Props/Pipeline.lean) are
-built and audited with this check (`EXTRA_PROPS`)."""
+`Pipeline.rankFile` (parser, loop, pairs, orientation, MI scoring at `--mi_stratified_sampling_ratio` 1.0 and at the float32
+ratios 0.5 / 0.25 / 0.9, median, sort); its theorems (Props/Pipeline.lean) are built and audited with this check (`EXTRA_PROPS`)."""
 from __future__ import annotations
 
 import os
@@ -465,7 +465,7 @@ def run(ctx: Ctx):
     finally:
         ex.shutdown(wait=True)
     # end-to-end family (drawn last, so that the cases above do not depend on it)
-    corr_E2E.evaluate_e2e(ctx, corr_E2E.corpus_e2e() + corr_E2E.gen_cases(ctx.rng, th))
+    corr_E2E.evaluate_e2e(ctx, corr_E2E.corpus_e2e() + corr_E2E.corpus_ratio() + corr_E2E.gen_cases(ctx.rng, th))
 
 
 def search(ctx: Ctx):
@@ -473,7 +473,8 @@ def search(ctx: Ctx):
     sub.rng.seed(f'search:{ctx.seed}')
     evaluate(sub, [gen_case(sub.rng, True) for _ in range(250)], oracle_only=True)
     grouped_direct(sub, 1500, oracle_only=True)
-    corr_E2E.evaluate_e2e(sub, corr_E2E.corpus_e2e() + [corr_E2E.gen_e2e_case(sub.rng, True) for _ in range(60)], oracle_only=True)
+    corr_E2E.evaluate_e2e(sub, corr_E2E.corpus_e2e() + corr_E2E.corpus_ratio() + [corr_E2E.gen_e2e_case(sub.rng, True) for _ in range(60)]
+                          + [corr_E2E.gen_e2e_case(sub.rng, True, ratio=corr_E2E.RATIOS[k % 3]) for k in range(30)], oracle_only=True)
     return sub.oracle_failures
 
 
